@@ -8,7 +8,7 @@ import steps as S
 
 ID = "C04"
 CORR_MODULE = "Corr.C04"
-LEVEL = "exploration"
+LEVEL = "proof"
 SHARD = 100
 
 
